@@ -161,6 +161,18 @@ CLAIMED.update({
         design="6/C19"),
 })
 
+CLAIMED.update({
+    "C15": dict(
+        technique="Lean 4 proof (view/patch locality of a transfer attempt, pairwise commutation of attempts of different transfers with disjoint footprints, induction over List.Perm) + schedule and hash-seed sweeps on the real code + three-way agreement keyed model / sequential model / implementation",
+        text=("C15_steps_commute, C15_order_independent (schedules that are permutations of each other end in the same keyed state: every "
+              "target slot, script, request count and task record) and C15_queue_order are proved for all task sets with disjoint "
+              "footprints; the real Downloader.download() is run under 6 schedules per scenario and whole runs under 4 schedules and 3 "
+              "hash seeds, all results must be identical; the keyed model under a random schedule must agree with the sequential model "
+              "and the implementation."),
+        note="Hypothesis Disjoint (no shared target/URL between queue entries) is forced by the proof; the excluded point is finding F-C05a. Timing-dependent aborts belong to the fault plan (S9). Trusted: Lean kernel, model, harness scheduler.",
+        design="6/C15"),
+})
+
 NOT_YET = {}
 
 
